@@ -95,7 +95,10 @@ PROP_META = {f"C{i:02d}": {} for i in range(1, 21)}
 def report(prop, tier, seed, results, bounded, kf, known_by_id, wall, a):
     os.makedirs(os.path.join(ROOT, "evidence"), exist_ok=True)
     os.makedirs(os.path.join(ROOT, "replays"), exist_ok=True)
-    baseline = load_json(os.path.join(ROOT, "baseline_obligations.json"), {}).get(prop, [])
+    import re as _re
+    def norm(nm): return _re.sub(r"#\d+", "", _re.sub(r":\d+", "", nm))          # names without source line numbers / ordinals: harmless edits shift lines
+    writing = os.environ.get("VERIF_WRITE_BASELINE") == "1"
+    baseline = [] if writing else [norm(b) for b in load_json(os.path.join(ROOT, "baseline_obligations.json"), {}).get(prop, [])]
     obls, errors, functions, trusted, known_present, known_gone = [], [], {}, set(), set(), set()
     solver_s, exec_s = 0.0, 0.0
     for r in results:
@@ -112,14 +115,15 @@ def report(prop, tier, seed, results, bounded, kf, known_by_id, wall, a):
         names.add(o["name"])
         if o["status"] == "violated": violations.append(o)
         elif o["status"] == "undecided":
-            if o["kind"] not in ("cover", "canary", "known") and o["name"] in baseline:
+            if o["kind"] not in ("cover", "canary", "known") and norm(o["name"]) in baseline:
                 o["note"] = "discharged on the baseline tree, undecided now"; violations.append(o)
             else: undecided.append(o)
         elif o["status"] in ("vacuous", "engine-disagreement"): engine.append(o)
     for b in bounded:
         if b.get("status") == "violated": violations.append({"name": "bounded/" + b["name"], "kind": "bounded", "replay": b.get("replay"), "status": "violated", "bounded": True})
         elif b.get("status") == "error": engine.append({"name": "bounded/" + b["name"], "status": "error", "reason": b.get("detail", "")})
-    missing = [n for n in baseline if n not in names]
+    nnames = {norm(n) for n in names}
+    missing = sorted({n for n in baseline if n not in nnames})
     code = 0
     lines = []
     for kid in sorted(known_present):
@@ -158,6 +162,11 @@ def report(prop, tier, seed, results, bounded, kf, known_by_id, wall, a):
     backends = {}
     for o in discharged: backends[o["backend"]] = backends.get(o["backend"], 0) + 1
     samples = [{"obligation": o["name"], "exit": o.get("exit"), "status": o["status"], "backend": o["backend"], "seconds": o["seconds"]} for o in n_proof[:6]]
+    stamp = load_json(os.path.join(ROOT, ".tmp", "lemma_stamp.json"), None)
+    cur = __import__("hashlib").sha256(b"".join(open(os.path.join(ROOT, "lemmas", f), "rb").read() for f in sorted(os.listdir(os.path.join(ROOT, "lemmas"))) if f.endswith(".lean"))).hexdigest()[:16]
+    lemma_note = (f"Lean lemma library (lemmas/*.lean, hash {cur}) checked by the Lean 4 kernel at setup in {stamp['seconds']}s" if stamp and stamp.get("hash") == cur
+                  else f"Lean lemma library (lemmas/*.lean, hash {cur}) NOT re-checked in this sandbox run (bin/lemmas): lemma instances are then assumptions")
+    trusted.add(lemma_note)
     cov = {
         "obligations": len(n_proof), "discharged": len(discharged),
         "checker_cmd": f"bin/check {prop} --tier {tier}",
@@ -187,7 +196,7 @@ def report(prop, tier, seed, results, bounded, kf, known_by_id, wall, a):
           f"undecided={len(undecided)} errors={len(errors)} wall={wall:.1f}s exit={code}")
     if os.environ.get("VERIF_WRITE_BASELINE") == "1" and code == 0 and not a.unit:
         bpath = os.path.join(ROOT, "baseline_obligations.json")
-        b = load_json(bpath, {}); b[prop] = sorted(o["name"] for o in discharged)
+        b = load_json(bpath, {}); b[prop] = sorted({norm(o["name"]) for o in discharged})
         with open(bpath, "w") as f: json.dump(b, f, indent=0, sort_keys=True)
     return code
 
